@@ -47,7 +47,10 @@ def _get_samplers_id_table(saving_folder: str | os.PathLike) -> dict[str, int]:
     """
     output_file = Path(saving_folder) / "scheduler_pickled.pickle"
     with output_file.open("rb") as f:
-        method_list = pickle.load(f)  # nosec B301
+        scheduler_or_samplers = pickle.load(f)  # nosec B301
+
+    # the checkpoint stores the scheduler; older checkpoints stored the list of samplers
+    method_list = list(getattr(scheduler_or_samplers, "samplers", scheduler_or_samplers))
 
     return Calibrator._construct_samplers_id_table(method_list)  # noqa: SLF001
 
